@@ -224,7 +224,10 @@ def run(ctx):
                        "registry.GetKeyManager); per key type additionally ONE KEY PER GOROUTINE (all keys of one type URL) with concurrent "
                        "registry.Primitive / registry.PrimitiveFromKeyData / keyset-factory construction + one operation (the registry's "
                        "singleton key manager is the shared object); shared aead.NewKMSEnvelopeAEAD2 over an in-process KEK (3 DEK "
-                       "templates); registry histories: random windows of <= 6 concurrent Register/Get/KmsRegister/"
+                       "templates); inputs vary in SHAPE across goroutines (AD nil / empty / bytes, message length classes, JWT type header "
+                       "absent / 3 values and different claims - the returned token is decoded by the spec (JWS.tla): header typ and payload "
+                       "must be the caller's); every randomized producing call has its own distinguishable input; streams are written in "
+                       "chunks with scheduling points and half of them closed twice; registry histories: random windows of <= 6 concurrent Register/Get/KmsRegister/"
                        "KmsGet/KmsClear calls on harness-owned type URLs and clients; all runs under the Go race detector")
     ctx.assumptions += ["schedules are sampled by the Go scheduler (several GOMAXPROCS values / seeds), not enumerated",
                         "the no-data-race clause is decided by the Go race detector attached to the conformance runs, not by TLC",
